@@ -1312,6 +1312,12 @@ int _vnadata_load_touchstone(vnadata_internal_t *vdip, FILE *fp,
 		    tps.tps_filename, tps.tps_line);
 		goto out;
 	    }
+	    if (reference != NULL) {
+		_vnadata_error(vdip, VNAERR_SYNTAX, "%s (line %d) error: "
+			"[Reference] may appear only once",
+		    tps.tps_filename, tps.tps_line);
+		goto out;
+	    }
 	    if ((reference = calloc(tps.tps_ports,
 			    sizeof(double complex))) == NULL) {
 		_vnadata_error(vdip, VNAERR_SYSTEM,
